@@ -203,7 +203,13 @@ func (c *ServerConn) recvFromStream(ctx context.Context) ([]byte, error) {
 
 // sendToStream is used to send a payload on the send stream.
 func (c *ServerConn) sendToStream(ctx context.Context, payload []byte) error {
-	c.sendStreamMu.Lock()
+	// Another send may hold the lock for as long as the mailbox server
+	// cannot be reached (createSendMailBox retries with the lock held). A
+	// caller with a deadline, such as the FIN that Close sends, gives up
+	// when its deadline passes instead of waiting for the lock for ever.
+	if err := lockWithContext(ctx, &c.sendStreamMu); err != nil {
+		return err
+	}
 	if c.sendStream == nil {
 		c.createSendMailBox(ctx, 0)
 	}
@@ -218,7 +224,9 @@ func (c *ServerConn) sendToStream(ctx context.Context, payload []byte) error {
 		default:
 		}
 
-		c.sendStreamMu.Lock()
+		if err := lockWithContext(ctx, &c.sendStreamMu); err != nil {
+			return err
+		}
 		err := c.sendStream.Send(&hashmailrpc.CipherBox{
 			Desc: &hashmailrpc.CipherBoxDesc{
 				StreamId: c.sendSID[:],
